@@ -254,6 +254,18 @@ impl AnyState {
             AnyState::Lj(s) => s.cartesian_positions().map(|t| Aff::from_t2(&t)).collect(),
         }
     }
+    /// The points (polygon corners, disc or particle centres) of every copy as the crate's own
+    /// shape transform places them in Cartesian space.
+    pub fn placed_points(&self) -> Vec<Vec<P2>> {
+        fn pts<T: serde::Serialize>(shape: &T) -> Vec<P2> {
+            body_from_json(&serde_json::to_value(shape).unwrap_or(Value::Null)).points()
+        }
+        match self {
+            AnyState::Poly(s) => s.cartesian_positions().map(|t| pts(&s.shape.transform(&t))).collect(),
+            AnyState::Mol(s) => s.cartesian_positions().map(|t| pts(&s.shape.transform(&t))).collect(),
+            AnyState::Lj(s) => s.cartesian_positions().map(|t| pts(&s.shape.transform(&t))).collect(),
+        }
+    }
     pub fn relative(&self) -> Vec<Aff> {
         match self {
             AnyState::Poly(s) => s.relative_positions().map(|t| Aff::from_t2(&t)).collect(),
